@@ -162,3 +162,48 @@ class C03H(SMSpec):
     def clause_fn(self, c, H):
         cl.timing_clauses(c, H, "C03")
         cl.clauses_c03_default(c, H)
+
+
+class C13(SMSpec):
+    id = "C13"
+    clauses = ["C13.enable", "C13.run", "C13.finish nothing-runs", "C13.finish is_executing", "C13.disable",
+               "C13.1", "C13.2", "C13.tm-origin", "C13.ic"]
+    outside = [
+        "on_iteration() before the first on_enable() (raises AttributeError today; not covered by the statement)",
+        "on_enable() while the machine is still running (no on_disable() in between)",
+        "IEEE rounding of the clock arithmetic (reals are used)",
+        "histories longer than K calls",
+    ]
+
+    def mk(self, shape, K, budget, variant=0, nsn_depth=1):
+        j = mkjob(shape, K, budget, variant=variant, nsn_depth=nsn_depth)
+        j["asm"] = True
+        j["cfg"]["asm"] = True
+        return j
+
+    def jobs(self, tier):
+        if tier == "quick":
+            return [self.mk("S1", 6, 2), self.mk("S2", 6, 1), self.mk("S3", 5, 2), self.mk("S7", 6, 0), self.mk("S8", 5, 1)]
+        return [self.mk("S1", 8, 2, 1), self.mk("S2", 8, 2, 2), self.mk("S3", 6, 3, 3, 2), self.mk("S7", 9, 1, 4),
+                self.mk("S8", 7, 2, 5), self.mk("S4", 6, 2, 1), self.mk("S6", 8, 1, 2)]
+
+    def reach_required(self, tier):
+        return ["disabled", "iteration-after-finish", "iteration-while-disabled", "first-iteration-after-enable",
+                "asm-running", "asm-finished", "asm-finished-by-done", "asm-finished-by-expiry", "timed-expired"]
+
+    def path_fn(self, c, job):
+        H = smc.run_asm_history(c, job)
+        cl.timing_clauses(c, H, "C13")
+        cl.clauses_c13(c, H)
+
+    def trigger(self, viol, job):
+        info = viol.get("info") or {}
+        return dict(shape=job.get("shape"), called_kind=info.get("kind"))
+
+    def twin(self, tier):
+        def tfn(c, job):
+            H = smc.run_asm_history(c, job)
+            for it in H.iters:
+                c.prove("twin", len(it.calls) == 0)
+
+        return [self.mk("S1", 3, 0)], tfn
